@@ -3,6 +3,8 @@ import NeverModel.Props.C03
 import NeverModel.Lemmas.VmEffect
 import NeverModel.Lemmas.VmEffectSound
 import NeverModel.Lemmas.VmIpSound
+import NeverModel.Lemmas.VerCert
+import NeverModel.Lemmas.VerLocal
 /-!
 # C07 — emitted code is well-formed on every path, executed or not
 
@@ -146,12 +148,7 @@ theorem verified_flow (md : Module) (sm : Summary) (hm : HMap) (hv : verifyH md 
     (hi : md.code[a]? = some i) (hs : hm[a]? = some (some st)) (he : simpleEffect i = some (p, q)) (hj : i.op ≠ .JUMPZ) :
     ∃ st', hm[a + 1]? = some (some st') ∧ p ≤ st.h ∧ st'.h + p = st.h + q := by
   obtain ⟨_, hf⟩ := verifyH_ok md sm hm hv
-  unfold flowOk at hf
-  have ha : a < md.code.size := by
-    rcases Nat.lt_or_ge a md.code.size with h | h
-    · exact h
-    · rw [Array.getElem?_eq_none (by omega)] at hi; cases hi
-  have := (List.all_eq_true.mp hf) a (List.mem_range.mpr ha)
+  have := (flowOk_at hf (lt_size_of_getElem? hi)).1
   unfold flowOkAt at this
   simp only [hi, hs, he] at this
   have hj' : (i.op == Opc.JUMPZ) = false := by simpa using hj
@@ -197,12 +194,7 @@ theorem verified_flow_branch (md : Module) (sm : Summary) (hm : HMap) (hv : veri
         (∃ s2, hm[((a : Int) + 1 + i32 i.w0).toNat]? = some (some s2) ∧ s2.h + 1 = st.h)) ∧
     (i.op = .JUMP → ∃ s2, hm[((a : Int) + 1 + i32 i.w0).toNat]? = some (some s2) ∧ s2.h = st.h) := by
   obtain ⟨_, hf⟩ := verifyH_ok md sm hm hv
-  unfold flowOk at hf
-  have ha : a < md.code.size := by
-    rcases Nat.lt_or_ge a md.code.size with h | h
-    · exact h
-    · rw [Array.getElem?_eq_none (by omega)] at hi; cases hi
-  have key := (List.all_eq_true.mp hf) a (List.mem_range.mpr ha)
+  have key := (flowOk_at hf (lt_size_of_getElem? hi)).1
   unfold flowOkAt at key
   simp only [hi, hs] at key
   constructor
@@ -266,5 +258,196 @@ example : (match verifyH tinyModule with
 
 /-- how many opcodes that theorem covers (of `Opc.all`) — not vacuous -/
 example : (Opc.all.toList.filter isArith).length = 77 := by decide +kernel
+
+/-! ## From the certificate to executions: frame opcodes, frame-relative addressing, runs inside one activation
+
+`verifyH` re-checks its height map with `flowOk` = `flowOkAt` (the effect table, JUMP) ∧ `frameOkAt` (MARK, CALL, SLIDE, RET,
+CLEAR_STACK, PUSH_PARAM, MK_INIT_ARRAY, the reach of the frame-relative opcodes, every edge inside one function) ∧ `handlersOk`
+(every handler of the exception table is `[LABEL] CLEAR_STACK/RETHROW/UNHANDLED_EXCEPTION` at a reached address).  The theorems
+below rest on that re-check only.  Notation: `fnParamsAt md a` = parameter count (emitter hook) of the function containing `a`;
+`AtHeight md hm vm` = running, `ip` reached, `sp = pp + fnParamsAt md ip + h(ip)`; `AtHandler` = running at a handler entry. -/
+
+/-- **What a verified module says statically about its frame opcodes** (at every reached address, executed or not): a function
+returns with exactly its result above its parameters (`RET` at height 1); a `CALL` no `MARK` returns behind (a last call) leaves
+exactly the fresh-entry frame (height 1 = the function object; 0 after the pop), a marked one finds its function object; both
+successors of a `MARK` are reached at the heights `h + 5` (behind it) and `h + 1` (its return address: frame popped, result pushed),
+in the same function; `CLEAR_STACK n` has `n` = the parameter count of its function. -/
+theorem verified_frame_heights (md : Module) (sm : Summary) (hm : HMap) (hv : verifyH md = .ok (sm, hm))
+    (a : Nat) (i : Instr) (st : AbsSt) (hi : md.code[a]? = some i) (hs : hm[a]? = some (some st)) :
+    (i.op = .RET → st.h = 1) ∧
+    (i.op = .CALL → (markedCall md a = true ∧ 1 ≤ st.h) ∨ (markedCall md a = false ∧ st.h = 1)) ∧
+    (i.op = .MARK → (∃ s1, hm[a + 1]? = some (some s1) ∧ s1.h = st.h + 5 ∧ fnParamsAt md (a + 1) = fnParamsAt md a) ∧
+                    (∃ s2, hm[i.w0]? = some (some s2) ∧ s2.h = st.h + 1 ∧ fnParamsAt md i.w0 = fnParamsAt md a)) ∧
+    (i.op = .CLEAR_STACK → i.w0 = fnParamsAt md a) := by
+  obtain ⟨_, hf⟩ := verifyH_ok md sm hm hv
+  have hfr := frame_at hf hi
+  refine ⟨fun h => frameOkAt_RET hi hs h hfr, fun h => frameOkAt_CALL hi hs h hfr, fun h => ?_, fun h => (frameOkAt_CLEAR_STACK hi hs h hfr).1⟩
+  obtain ⟨k1, k2⟩ := frameOkAt_MARK hi hs h hfr
+  obtain ⟨s2, e1, e2, e3⟩ := hAt_spec k1
+  obtain ⟨s1, f1, f2, f3⟩ := hAt_spec k2
+  exact ⟨⟨s1, f1, f2, fnParamsAt_same f3⟩, ⟨s2, e1, e2, fnParamsAt_same e3⟩⟩
+
+/-- **MARK** in a verified module, from a machine at its recorded height: `pp` is left alone, `fp = sp := sp + 5` (the five frame
+words), and the machine is at the recorded height of the next address -/
+theorem verified_mark_step (md : Module) (orc : Oracle) (sm : Summary) (hm : HMap) (hv : verifyH md = .ok (sm, hm))
+    (vm vm' : Vm) (i : Instr) (hi : md.code[vm.ip]? = some i) (hop : i.op = .MARK) (hh : AtHeight md hm vm)
+    (hstep : (step md orc).run vm = .ok ((), vm')) :
+    vm'.pp = vm.pp ∧ vm'.fp = vm.sp + 5 ∧ vm'.sp = vm.sp + 5 ∧ vm'.ip = vm.ip + 1 ∧ vm'.stackSize = vm.stackSize ∧ AtHeight md hm vm' := by
+  obtain ⟨_, hf⟩ := verifyH_ok md sm hm hv
+  obtain ⟨hrun, st, hs, hinv⟩ := hh
+  obtain ⟨_, r1, r2, r3, _, r5, r6, r7⟩ := step_MARK_regs md orc vm vm' i hi hop hrun hstep
+  obtain ⟨_, hk⟩ := frameOkAt_MARK hi hs hop (frame_at hf hi)
+  exact ⟨r3, r2, r1, r5, r7, (atHeight_next hf hinv hk r6 r5 r3 (by rw [r1]; omega)).1⟩
+
+/-- **SLIDE q m** in a verified module, from a machine at its recorded height: `sp` moves by `−q`, `fp`/`pp` are left alone, and the
+machine is at the recorded height of the next address — in the ordinary case (`q + m ≤ h`) and in the last-call case (`h = q + 1`,
+`m = nparams + 1`: the new arguments and the function object replace the parameters; then `sp = pp + nparams + 1`) -/
+theorem verified_slide_step (md : Module) (orc : Oracle) (sm : Summary) (hm : HMap) (hv : verifyH md = .ok (sm, hm))
+    (vm vm' : Vm) (i : Instr) (hi : md.code[vm.ip]? = some i) (hop : i.op = .SLIDE) (hh : AtHeight md hm vm)
+    (hstep : (step md orc).run vm = .ok ((), vm')) :
+    vm'.pp = vm.pp ∧ vm'.fp = vm.fp ∧ vm'.sp = vm.sp - (i.w0 : Int) ∧ vm'.ip = vm.ip + 1 ∧ vm'.stackSize = vm.stackSize ∧ AtHeight md hm vm' ∧
+    (∀ st, hm[vm.ip]? = some (some st) → i.w0 ≠ 0 → st.h < i.w0 + i.w1 →
+       i.w1 = fnParamsAt md vm.ip + 1 ∧ vm'.sp = vm.pp + (fnParamsAt md vm.ip : Int) + 1 ∧ (md.code[vm.ip + 1]?.map (·.op)) = some .CALL) := by
+  obtain ⟨_, hf⟩ := verifyH_ok md sm hm hv
+  obtain ⟨hrun, st, hs, hinv⟩ := hh
+  obtain ⟨r1, r2, r3, _, r5, r6, r7⟩ := step_SLIDE_regs md orc vm vm' i hi hop hrun hstep
+  have hc := frameOkAt_SLIDE hi hs hop (frame_at hf hi)
+  refine ⟨r3, r2, r1, r5, r7, ?_, ?_⟩
+  · rcases hc with ⟨hq, hk⟩ | ⟨hq, hle, hk⟩ | ⟨hq, hlt, hh, _, _, hk⟩
+    · exact (atHeight_next hf hinv hk r6 r5 r3 (by rw [r1, hq]; simp)).1
+    · exact (atHeight_next hf hinv hk r6 r5 r3 (by rw [r1]; omega)).1
+    · exact (atHeight_next hf hinv hk r6 r5 r3 (by rw [r1]; omega)).1
+  · intro st2 hs2 hq hlt
+    rw [hs] at hs2; cases hs2
+    rcases hc with ⟨hq', _⟩ | ⟨_, hle, _⟩ | ⟨_, _, hh, hm1, hcall, _⟩
+    · exact absurd hq' hq
+    · omega
+    · exact ⟨hm1, by rw [r1]; unfold fnParamsAt at hinv ⊢; omega, hcall⟩
+
+/-- **CLEAR_STACK n** in a verified module, from ANY running or just-dispatched machine at a reached address (a catch clause is
+entered with whatever `sp` the faulting instruction left): `fp = pp`, `sp = pp + n` with `n` the parameter count of the function, and
+the machine is at the recorded height (0) of the next address -/
+theorem verified_clear_stack_step (md : Module) (orc : Oracle) (sm : Summary) (hm : HMap) (hv : verifyH md = .ok (sm, hm))
+    (vm vm' : Vm) (i : Instr) (st : AbsSt) (hi : md.code[vm.ip]? = some i) (hop : i.op = .CLEAR_STACK) (hs : hm[vm.ip]? = some (some st))
+    (hstep : (step md orc).run vm = .ok ((), vm')) :
+    vm'.pp = vm.pp ∧ vm'.fp = vm.pp ∧ vm'.sp = vm.pp + (fnParamsAt md vm.ip : Int) ∧ vm'.ip = vm.ip + 1 ∧ vm'.stackSize = vm.stackSize ∧
+    AtHeight md hm vm' := by
+  obtain ⟨_, hf⟩ := verifyH_ok md sm hm hv
+  obtain ⟨r1, r2, r3, _, r5, r6, r7⟩ := step_CLEAR_STACK_regs md orc vm vm' i hi hop hstep
+  obtain ⟨hn, hk⟩ := frameOkAt_CLEAR_STACK hi hs hop (frame_at hf hi)
+  obtain ⟨st', e1, e2, e3⟩ := hAt_spec hk
+  refine ⟨r3, r2, by rw [r1, hn]; rfl, r5, r7, r6, st', by rw [r5]; exact e1, ?_⟩
+  rw [r5, fnParamsAt_same e3, r3, r1, e2, hn]; unfold fnParamsAt; omega
+
+/-- **PUSH_PARAM** (entry stub) and **MK_INIT_ARRAY** in a verified module, from a machine at its recorded height: `pp` is left alone
+and the machine is at the recorded height of the next address (or an allocation stopped the machine).  For `MK_INIT_ARRAY` the
+hypothesis is that the extents found on the stack are the constants the verifier recorded (pushed by the preceding `INT`s; the
+verifier's constant propagation is not re-proved over executions): then exactly `dims + Π extents` slots are popped and one pushed. -/
+theorem verified_data_step (md : Module) (orc : Oracle) (sm : Summary) (hm : HMap) (hv : verifyH md = .ok (sm, hm))
+    (vm vm' : Vm) (i : Instr) (st : AbsSt) (hi : md.code[vm.ip]? = some i) (hs : hm[vm.ip]? = some (some st))
+    (hop : i.op = .PUSH_PARAM ∨ (i.op = .MK_INIT_ARRAY ∧ stackInts vm i.w0 vm.sp = initExts st i.w0))
+    (hh : AtHeight md hm vm) (hstep : (step md orc).run vm = .ok ((), vm')) : Succ md hm vm vm' := by
+  obtain ⟨_, hf⟩ := verifyH_ok md sm hm hv
+  obtain ⟨hrun, st2, hs2, hinv⟩ := hh
+  rw [hs] at hs2; cases hs2
+  rcases hop with hop | ⟨hop, hext⟩
+  · exact succ_PUSH_PARAM hf orc vm vm' i st hi hs hop hrun hinv hstep
+  · exact succ_MK_INIT_ARRAY hf orc vm vm' i st hi hs hop hrun hinv hext hstep
+
+/-- **Frame-relative addressing stays in the function's own frame.**  For `ID_LOCAL`, `ID_DIM_LOCAL`, `ID_DIM_SLICE`, `OP_DUP_INT`,
+`OP_INC_INT`, `OP_DEC_INT`, `ARRAY_APPEND`, `VEC_DEREF`, `VECREF_VEC_DEREF`, `DUP`, `REWRITE` (`frameDist i = some d`: the handler
+reads stack slot `sp − d`, see `frame_slot_is_read`) at a reached address inside a function body of a verified module: whenever
+`sp = pp + nparams + h(ip)`, the slot lies in `(pp, sp]` — above the caller's data and the five frame words, at or below the top. -/
+theorem verified_local_in_frame (md : Module) (sm : Summary) (hm : HMap) (hv : verifyH md = .ok (sm, hm))
+    (a : Nat) (i : Instr) (st : AbsSt) (d : Int) (hi : md.code[a]? = some i) (hs : hm[a]? = some (some st))
+    (hd : frameDist i = some d) (hfn : inFunction md a = true)
+    (sp pp : Int) (hsp : sp = pp + (fnParamsAt md a : Int) + (st.h : Int)) : pp < sp - d ∧ sp - d ≤ sp :=
+  local_in_frame (verifyH_ok md sm hm hv).2 hi hs hd hfn sp pp hsp
+
+/-- the handler of a frame-relative opcode does access slot `sp − frameDist`: if that index were outside the stack array the
+handler would not complete (M-VM: crash = an out-of-bounds access of the C array) -/
+theorem frame_slot_is_read (md : Module) (i : Instr) (orc : Oracle) (d : Int) (hd : frameDist i = some d) (vm vm' : Vm)
+    (h : (exec md i orc).run vm = .ok ((), vm')) : 0 ≤ vm.sp - d ∧ vm.sp - d < vm.stackSize :=
+  exec_reads_frame_slot md i orc d hd vm vm' h
+
+/-- **One step inside an activation of a verified module.**  From a machine at its recorded height (`AtHeight`) or at a handler
+entry (`AtHandler`), a step on any instruction other than CALL / RET / RETHROW / HALT / UNHANDLED_EXCEPTION (`Inside`; for
+`MK_INIT_ARRAY` it also asks that the extents on the stack are the recorded constants) leaves `pp` and the stack size alone and
+ends: at the recorded height of the address it reached, in the same function; or at a handler entry — the next address, or the
+handler the exception table assigns to the faulting address —; or with the machine stopped (`running = 3`). -/
+theorem verified_step_in_activation (md : Module) (orc : Oracle) (sm : Summary) (hm : HMap) (hv : verifyH md = .ok (sm, hm))
+    (vm vm' : Vm) (hg : AtHeight md hm vm ∨ AtHandler md hm vm) (hin : Inside md hm vm)
+    (hstep : (step md orc).run vm = .ok ((), vm')) :
+    vm'.pp = vm.pp ∧ vm'.stackSize = vm.stackSize ∧
+    ((AtHeight md hm vm' ∧ sameFn (funcStarts md) vm.ip vm'.ip = true) ∨
+     (AtHandler md hm vm' ∧ (vm'.ip = vm.ip + 1 ∨ excHandler md.exctab md.excCount vm.ip = some vm'.ip)) ∨
+     vm'.running = 3) :=
+  step_good (verifyH_ok md sm hm hv).2 orc vm vm' hg hin hstep
+
+/-- **Runs inside one activation of a verified module keep the height invariant** (`RunsTo md P n vm vm'`: `vm'` is reached from
+`vm` by `n` steps, each from a running machine satisfying `P`, each with arbitrary results of its external calls).  From a machine at
+its recorded height or at a handler entry, as long as the executed instructions are not CALL / RET / RETHROW / HALT /
+UNHANDLED_EXCEPTION (and `MK_INIT_ARRAY` finds the recorded constants), every reached state has the same `pp` and stack size and is
+again at the recorded height of ITS address (`sp = pp + nparams + h(ip)`), or at a handler entry (whose `CLEAR_STACK` re-establishes
+the height), or the machine stopped. -/
+theorem verified_run_in_activation (md : Module) (sm : Summary) (hm : HMap) (hv : verifyH md = .ok (sm, hm))
+    (n : Nat) (vm vm' : Vm) (hg : AtHeight md hm vm ∨ AtHandler md hm vm) (hr : RunsTo md (Inside md hm) n vm vm') :
+    vm'.pp = vm.pp ∧ vm'.stackSize = vm.stackSize ∧ ((AtHeight md hm vm' ∨ AtHandler md hm vm') ∨ vm'.running = 3) :=
+  runsTo_good (verifyH_ok md sm hm hv).2 n vm vm' hg hr
+
+/-- the same for the loop function `run` (`while (running == VM_RUNNING) step`), with one oracle per step: if every state the run
+passes through is `Inside` its activation, the final state satisfies the invariant -/
+theorem verified_run_fn_in_activation (md : Module) (sm : Summary) (hm : HMap) (hv : verifyH md = .ok (sm, hm))
+    (orc : Nat → Oracle) (n : Nat) (vm vm' : Vm) (hg : AtHeight md hm vm ∨ AtHandler md hm vm)
+    (hrun : run md orc n vm = .ok vm')
+    (hin : ∀ k v, RunsTo md (fun _ => True) k vm v → v.running = 1 → Inside md hm v) :
+    vm'.pp = vm.pp ∧ vm'.stackSize = vm.stackSize ∧ ((AtHeight md hm vm' ∨ AtHandler md hm vm') ∨ vm'.running = 3) := by
+  obtain ⟨k, _, hk⟩ := run_runsTo md orc n vm vm' hrun
+  exact verified_run_in_activation md sm hm hv k vm vm' hg
+    (runsTo_strengthen md _ k vm vm' hk (fun j v _ hr hv => hin j v hr hv))
+
+/-- a module with a marked call, a frame-relative read, a catch clause and a last call; it verifies, and the certificate re-check
+`frameOkAt` is exercised at MARK (0), CALL (4, marked; 23, last call), ID_LOCAL (9, 17), RET (12), CLEAR_STACK (14), SLIDE (22) -/
+def callModule : Module := {
+  code := #[⟨.MARK, 5, 0, 0⟩, ⟨.INT, 7, 0, 0⟩, ⟨.GLOBAL_VEC, 0, 0, 0⟩, ⟨.ID_FUNC_ADDR, 8, 0, 0⟩, ⟨.CALL, 0, 0, 0⟩, ⟨.HALT, 0, 0, 0⟩,
+            ⟨.LABEL, 0, 0, 0⟩, ⟨.UNHANDLED_EXCEPTION, 0, 0, 0⟩,
+            -- f(x) = x + 1, with a catch clause returning 0
+            ⟨.FUNC_DEF, 0, 0, 0⟩, ⟨.ID_LOCAL, 0, 0, 0⟩, ⟨.INT, 1, 0, 0⟩, ⟨.OP_ADD_INT, 0, 0, 0⟩, ⟨.RET, 0, 0, 0⟩,
+            ⟨.LABEL, 0, 0, 0⟩, ⟨.CLEAR_STACK, 1, 0, 0⟩, ⟨.INT, 0, 0, 0⟩, ⟨.RET, 0, 0, 0⟩,
+            -- g(x) = g(x + 1) as a last call: args; func; SLIDE 1+L 2; CALL  (here L = 0: height 2 = q + 1 with q = 1)
+            ⟨.FUNC_DEF, 0, 0, 0⟩, ⟨.ID_LOCAL, 0, 0, 0⟩, ⟨.INT, 1, 0, 0⟩, ⟨.OP_ADD_INT, 0, 0, 0⟩, ⟨.GLOBAL_VEC, 0, 0, 0⟩, ⟨.ID_FUNC_ADDR, 17, 0, 0⟩,
+            ⟨.SLIDE, 1, 2, 0⟩, ⟨.CALL, 0, 0, 0⟩, ⟨.LABEL, 0, 0, 0⟩, ⟨.RETHROW, 0, 0, 0⟩],
+  strtab := #[], exctab := #[⟨0, 6⟩, ⟨8, 13⟩, ⟨17, 25⟩, ⟨4294967295, 0⟩], excCount := 3, codeEntry := 0, entryAddr := 8, params := [],
+  fnParams := [(8, 1), (17, 1)] }
+
+example : (match verifyH callModule with
+    | .ok (_, hm) => (hm.toList.map fun o => o.map (·.h)) ==
+        [some 0, some 5, some 6, some 7, some 7, some 1, some 0, some 0,
+         some 0, some 0, some 1, some 2, some 1, some 0, some 0, some 0, some 1,
+         some 0, some 0, some 1, some 2, some 1, some 2, some 2, some 1, some 0, some 0]
+    | .error _ => false) = true := by decide +kernel
+
+/-- the certificate is not vacuous: the height map of the good module does not re-check (`flowOk`) against the same code with the
+function returning at height 2, with a frame-relative read below the frame, or with a wrong `CLEAR_STACK` count -/
+example : (match verifyH callModule with
+    | .ok (_, hm) =>
+      let bad (a : Nat) (i : Instr) : Bool := !flowOk { callModule with code := callModule.code.set! a i } hm
+      bad 11 ⟨.RET, 0, 0, 0⟩ && bad 9 ⟨.ID_LOCAL, 1, 0, 0⟩ && bad 14 ⟨.CLEAR_STACK, 2, 0, 0⟩ && flowOk callModule hm
+    | .error _ => false) = true := by decide +kernel
+
+/-- … and address by address (`frameOkAt`): reach below the frame / above the top, `CLEAR_STACK` count, last-call slide one too
+far, `RET` at height 2, `MARK` whose return address has the wrong height -/
+example : (match verifyH callModule with
+    | .ok (_, hm) =>
+      let ok (a : Nat) (i : Instr) : Bool := frameOkAt { callModule with code := callModule.code.set! a i } (funcStarts callModule) hm a
+      !ok 9 ⟨.ID_LOCAL, 1, 0, 0⟩ && !ok 9 ⟨.ID_LOCAL, 0, 1, 0⟩ && !ok 14 ⟨.CLEAR_STACK, 2, 0, 0⟩ && !ok 23 ⟨.SLIDE, 2, 2, 0⟩ &&
+      !ok 11 ⟨.RET, 0, 0, 0⟩ && !ok 0 ⟨.MARK, 4, 0, 0⟩ && ok 9 ⟨.ID_LOCAL, 0, 0, 0⟩ && ok 24 ⟨.CALL, 0, 0, 0⟩
+    | .error _ => false) = true := by decide +kernel
+
+/-- the hypotheses of the step theorems are met on a real run: three steps of M-VM from the initial machine of `callModule`
+(MARK; INT; GLOBAL_VEC) pass through states at the recorded heights 5, 6, 7 -/
+example : (match run callModule (fun _ => {}) 3 { Vm.new 64 32 with running := 1 } with
+    | .ok v => v.ip == 3 && v.sp == v.pp + 0 + 7 && v.fp == 4 && v.running == 1
+    | .error _ => false) = true := by decide +kernel
 
 end Never.C07
